@@ -897,7 +897,7 @@ func altString(s string, rnd *rand.Rand) []string {
 			t.In(time.FixedZone("x", 3600)).Format(time.RFC3339Nano)}
 	}
 	if strings.HasPrefix(s, "did:") {
-		alts := []string{didO, didH, didJ, didU, s + "x"}
+		alts := []string{didO, "https://example.com/not-a-did", didH, didJ, didU, s + "x"}
 		if i := strings.Index(s, "#"); i >= 0 {
 			alts = []string{didO + s[i:], s + "x", s[:i] + "#k2", s[:i], didI + "#k3"}
 		}
@@ -907,7 +907,7 @@ func altString(s string, rnd *rand.Rand) []string {
 				r = append(r, a)
 			}
 		}
-		return r[:min(len(r), 3)]
+		return r[:min(len(r), 4)]
 	}
 	if strings.HasPrefix(s, "ey") && strings.Count(s, ".") == 2 { // embedded JWT: handled by the JWT mutator, here only a blunt change
 		return []string{s[:len(s)-2] + "AA"}
@@ -1428,6 +1428,25 @@ func (n *c01Nodes) generate(o *c01Out, rnd *rand.Rand, thorough bool) {
 	for _, b := range bases {
 		n.mutate(o, rnd, b, okAt, thorough)
 	}
+	// 2b. random multi-point mutations (seeded): two or three single mutations stacked
+	nMulti, nTimes := 160, 120
+	if thorough {
+		nMulti, nTimes = 12000, 6000
+	}
+	for i := 0; i < nMulti; i++ {
+		b := bases[rnd.Intn(len(bases))]
+		n.multiMutate(o, rnd, b, okAt, i)
+	}
+	// 2c. random validation times over the whole DID history, random flags
+	for i := 0; i < nTimes; i++ {
+		b := bases[rnd.Intn(len(bases))]
+		t := c01T0 - 1100 + rnd.Int63n(6400)
+		if rnd.Intn(3) == 0 { // near a boundary
+			bnd := []int64{-1000, 0, 100, 120, 720, 1000, 2000, 3000, 5000}[rnd.Intn(9)]
+			t = c01T0 + bnd - 7 + rnd.Int63n(15)
+		}
+		n.run(o, c01Call{kind: b.kind, text: b.text, at: &t, allowUntrusted: rnd.Intn(2) == 0, checkSig: rnd.Intn(6) != 0, label: b.label + "@rt", base: b.label, mut: "time", path: strconv.FormatInt(t-c01T0, 10)})
+	}
 	// 3. time / key-history / trust / revocation scan on the unmodified documents
 	n.scan(o, rnd, bases, thorough)
 }
@@ -1599,6 +1618,47 @@ func (n *c01Nodes) mutate(o *c01Out, rnd *rand.Rand, b c01Base, at int64, thorou
 	call(c01Mut{kind: "alg-hs256", path: "hdr:/alg"}, jwtJoin(hs, pl, sig))
 	call(c01Mut{kind: "ws-suffix", path: "text"}, b.text+" ")
 	n.resignJWT(o, b, hdr, pl, at)
+}
+
+// multiMutate stacks 2-3 random single-point mutations
+func (n *c01Nodes) multiMutate(o *c01Out, rnd *rand.Rand, b c01Base, at int64, i int) {
+	depth := 2 + rnd.Intn(2)
+	var kinds, paths []string
+	step := func(tree map[string]any, extra map[string][]any) map[string]any {
+		for d := 0; d < depth; d++ {
+			ms := mutations(tree, rnd, extra)
+			if len(ms) == 0 {
+				break
+			}
+			m := ms[rnd.Intn(len(ms))]
+			next, ok := m.tree.(map[string]any)
+			if !ok {
+				break
+			}
+			tree = next
+			kinds = append(kinds, m.kind)
+			paths = append(paths, m.path)
+		}
+		return tree
+	}
+	var text string
+	if strings.HasPrefix(strings.TrimSpace(b.text), "{") {
+		var root map[string]any
+		_ = json.Unmarshal([]byte(b.text), &root)
+		text = mustJSON(step(root, c01ExtraAddsVC))
+	} else {
+		hdr, pl, sig, ok := jwtParts(b.text)
+		if !ok {
+			return
+		}
+		if rnd.Intn(4) == 0 {
+			text = jwtJoin(step(hdr, nil), pl, sig)
+		} else {
+			text = jwtJoin(hdr, step(pl, c01ExtraAddsJWT), sig)
+		}
+	}
+	n.run(o, c01Call{kind: b.kind, text: text, at: &at, allowUntrusted: false, checkSig: true,
+		label: b.label + "~multi" + strconv.Itoa(i) + ":" + strings.Join(kinds, "+"), base: b.label, mut: "multi:" + strings.Join(kinds, "+"), path: strings.Join(paths, "+")})
 }
 
 // resignJWT: the same claims signed again by other keys (the attacker's, the issuer's authentication-only key, a key of another version)
